@@ -207,6 +207,72 @@ func TestVerifC02(t *testing.T) {
 				[]string{"G_gather", fmt.Sprint("dropped=", len(cs)-len(oc))}, map[string]any{"cands": vfCandsStr(cs), "out": vfCandsStr(oc)})
 		}
 
+		// ---------------- (A') breakMatchesOnNewlines: the pieces cover exactly the candidates' bytes minus newlines (C02_break_newlines)
+		for rep := 0; rep < 3; rep++ {
+			content := vfC03GenContent(r, r.Chance(20))
+			if r.Chance(30) { // newline-heavy
+				content = []byte(strings.NewReplacer(" ", "\n", "o", "\n").Replace(string(content)))
+			}
+			if len(content) == 0 {
+				content = []byte("a\nb")
+			}
+			cs := vfC03GenCands(r, content, !r.Chance(20))
+			for j := range cs { // longer candidates: more of them span several lines
+				if r.Chance(40) {
+					cs[j].sz += uint32(r.Intn(12))
+					if int(cs[j].off+cs[j].sz) > len(content) {
+						cs[j].sz = uint32(len(content)) - cs[j].off
+					}
+				}
+			}
+			var out []*candidateMatch
+			p := vfC03Recover(func() { out = breakMatchesOnNewlines(vfC03ToCM(cs), content) })
+			res := "None"
+			multi := false
+			if p {
+				vfOracleFail("break:panic", "breakMatchesOnNewlines panicked on in-bounds candidates", map[string]any{"content": string(content), "cands": vfCandsStr(cs)})
+			} else {
+				var oc []vfCand
+				want := make([]bool, len(content)+1)
+				got := make([]bool, len(content)+1)
+				for _, c := range cs {
+					for q := c.off; q < c.off+c.sz; q++ {
+						if content[q] != '\n' {
+							want[q] = true
+						} else {
+							multi = true
+						}
+					}
+				}
+				bad := ""
+				for _, m := range out {
+					oc = append(oc, vfCand{m.fileName, m.byteOffset, m.byteMatchSz})
+					if m.byteMatchSz == 0 || int(m.byteOffset+m.byteMatchSz) > len(content) {
+						bad = "a piece is empty or out of bounds"
+						continue
+					}
+					for q := m.byteOffset; q < m.byteOffset+m.byteMatchSz; q++ {
+						if content[q] == '\n' {
+							bad = "a piece contains a newline"
+						}
+						got[q] = true
+					}
+				}
+				for q := range want {
+					if want[q] != got[q] && bad == "" {
+						bad = fmt.Sprintf("byte %d: in a candidate and not a newline = %v, in a piece = %v", q, want[q], got[q])
+					}
+				}
+				if bad != "" {
+					vfOracleFail("break:cover", "line mode: the pieces of breakMatchesOnNewlines do not cover exactly the candidates' bytes minus newline bytes: "+bad,
+						map[string]any{"content": string(content), "cands": vfCandsStr(cs), "pieces": vfCandsStr(oc)})
+				}
+				res = cSome(vfCandsCoq(oc))
+			}
+			vfCase(cApp("G_brk", cBytes(content), vfCandsCoq(cs), res), vfKey("brk:", content, cs), multi, []string{"G_brk", fmt.Sprint("multiline=", multi)},
+				map[string]any{"content": string(content), "cands": vfCandsStr(cs)})
+		}
+
 		// ---------------- (B) makeRuneOffsetMap / lookup on generated sampling tables
 		{
 			var offs []uint32
@@ -331,7 +397,8 @@ func TestVerifC02(t *testing.T) {
 				cs := r.Chance(50)
 				qsp = qspec{q: &query.Substring{Pattern: p, CaseSensitive: cs, Content: true}, desc: fmt.Sprintf("substr(%q,cs=%v)", p, cs), sub: p, cs: cs}
 			} else {
-				p := r.Pick([]string{"fo+", "o.b", "[a-z]+", "a+", "(?s)o.b", "\\s+", "o\\n", "ne+dle", "[é世]+", "x|aa", "aa|aaa", "fo|foo", "foo|oba", "b?ar"})
+				p := r.Pick([]string{"fo+", "o.b", "[a-z]+", "a+", "(?s)o.b", "\\s+", "o\\n", "ne+dle", "[é世]+", "x|aa", "aa|aaa", "fo|foo", "foo|oba", "b?ar",
+					"\\n[a-zé世]+", "[a-z]*\\s?\\n+[a-zA-Z]+", "(?s)r.{1,6}f", "\\s+[a-z]"}) // the last four: matches with text AFTER a newline
 				q, err := query.Parse("content:" + p)
 				if err != nil {
 					t.Fatalf("parse %q: %v", p, err)
